@@ -453,6 +453,8 @@ def load_all(contract_dir=None, spec_dir=None):
                 opaque_ok.add(k)
             for k in tables.get("EFFECTS") or []:
                 effect_names.add(k)
+            for k in tables.get("OPAQUE_METHODS") or []:
+                opaque_ok.add("method:" + k)
     specs: Dict[str, SpecFn] = {}
     for path in sorted(glob.glob(os.path.join(spec_dir, "*.py"))):
         modname = "spec." + os.path.basename(path)[:-3]
